@@ -1,4 +1,5 @@
 import Cinco.Drv.Wire
+import Cinco.Drv.FieldWire
 import Cinco.TreeIO.Include
 import Cinco.Format.Xml
 import Cinco.Format.Yaml
@@ -246,6 +247,20 @@ def handle (cmd : String) (j : Json) : R Json := do
         | .written b => Json.mkObj [("written", bytesJson b)]
         | .garbage => Json.str "garbage"
       pure (Json.mkObj [("dest", dest), ("raised", Json.bool st.raised), ("opened", Json.bool st.opened)])
+  | "field.validate" => do
+      let f ← fieldOfJson (← field j "field")
+      let E ← envOfJson (← field j "env")
+      pure (resToJson (Field.validate E.toEnv f (← valOfJson (← field j "value"))))
+  | "field.tobasic" => do
+      let f ← fieldOfJson (← field j "field")
+      let E ← envOfJson (← field j "env")
+      pure (resToJson (Field.toBasic E f (← valOfJson (← field j "value"))))
+  | "field.topython" => do
+      let f ← fieldOfJson (← field j "field")
+      let E ← envOfJson (← field j "env")
+      pure (resToJson (Field.toPython E f (← valOfJson (← field j "value"))))
+  | "regex.match" => do
+      pure (Json.bool (Regex.isMatch (← reOfJson (← field j "re")) (← fChars j "text")))
   | "hash" => do
       match Hash.byName (← fStr j "alg") with
       | some h => pure (Json.mkObj [("digest", bytesJson (h (← fBytes j "data")))])
